@@ -20,7 +20,7 @@ MANIFEST = {
 }
 
 BOUNDS = {"quick": {"classes": 6, "depth": "2 + probe of every class"}, "thorough": {"classes": 6, "depth": "3 + probe of every class"}}
-TIME_BUDGET = {"quick": 400, "thorough": 3000}
+TIME_BUDGET = {"quick": 400, "thorough": 1200}
 STUBS = ["hash(int) -> exact CPython rule (mod 2^61-1, -1 -> -2)", "hash(tuple), hash(str) -> injective",
          "json.dumps(kwargs, sort_keys=True) -> injective canonical rendering"]
 ASSUMPTIONS = ["arguments are integers (hashable, JSON-serialisable)", "instances are kept alive by the caller"]
